@@ -3,20 +3,27 @@ import AioslskVerif.Spec.TransferGraph
 /-!
 Line protocol for K_C03 (one op per line → one output line).
 
-  `cfg <upload|download> <slowCancel 0|1> <slowFs 0|1> <listeners> <current|captured>`  → `ok`
+  `cfg <upload|download> <slowCancel 0|1> <slowFs 0|1> <listeners> <current|captured> <stubborn 0|1>`  → `ok`
      `<listeners>` = one digit per entry of `transfer.state_listeners`, in registration order:
      `1` = that listener suspends until a `resume`, `0` = it does not; `-` = no listener
+     `<stubborn>` = cancelled tasks do not end sooner when they are cancelled again
   `spec`   the frozen graph: `<dir>:<FROM>><TO>` for every documented edge, `<dir>:<method>=<TARGET>`
   `init <STATE> <fr> <ar> <rq> <piq> <qa> <ua> <st> <ct> <lp> <fx> <fs> <b> <tl>`  (`-` = None) → `ok`
   `create <id> <method> <reason|-> <remotely 0|1>`   evaluate `transfer.state.<method>(…)`     → `ok`
   `start <id>`                                        schedule it                               → `ok`
   `call <id> <method> <reason|-> <remotely 0|1>`      create + start                            → `ok`
   `mcall <id> <abort|queue|pause>`                    `TransferManager.<method>(transfer)`      → `ok`
-  `resume` | `spawn` | `setfile`                                                               → `ok`
+  `pcall <id> <reason|->`       the manager handles the peer's `PeerTransferQueueFailed` (downloads)  → `ok`
+  `load <whole 0|1>`            (directly after `init`) the record `init` describes is what the cache holds; it is
+                                read back by `read_cache` (`whole` = `filesize == bytes_transfered`)   → `ok`
+  `cancel <id>`                 the task awaiting invocation `id` is cancelled                         → `ok`
+  `resume` | `spawn` | `setfile` | `reload`                                                    → `ok`
   `obs`        what is observable now (and since the last `obs`); then the clock ticks
      → `<STATE> lock=<0|1> w=<waiters> ev=<listener>:<OLD>NEW,…|- ret=<id>:<T|F|R>,…|- <fields>`
-        (`R` = `InvalidStateTransition` raised by a manager call)
-Errors: `err <enum>` (bad-op, bad-arg, no-such-call, duplicate-id, not-a-manager-method).
+        (`R` = `InvalidStateTransition` raised by a manager call, `C` = the caller got `CancelledError`,
+         `P` = a peer-message handler returned — it does not say whether the request was refused)
+Errors: `err <enum>` (bad-op, bad-arg, no-such-call, duplicate-id, not-a-manager-method, not-a-download,
+not-settled — the invocation was issued since the last `obs` —, not-in-flight).
 -/
 open AioslskVerif.Transfer
 
@@ -26,6 +33,8 @@ structure DState where
   seen : Nat := 0               -- trace length at the last `obs`
   ids : List Nat := []          -- ids used so far
   mgrIds : List Nat := []
+  peerIds : List Nat := []
+  fresh : List Nat := []        -- ids scheduled since the last `obs`
 
 def optNat? (s : String) : Option (Option Nat) :=
   if s = "-" then some none else s.toNat?.map some
@@ -57,7 +66,8 @@ def observe (d : DState) : String :=
     | .event _ li a b => some s!"{li}:{a.name}>{b.name}"
     | _ => none
   let rets := fresh.filterMap fun
-    | .ret id ok => some s!"{id}:{if ok then "T" else if d.mgrIds.contains id then "R" else "F"}"
+    | .ret id ok => some s!"{id}:{if d.peerIds.contains id then "P" else if ok then "T" else if d.mgrIds.contains id then "R" else "F"}"
+    | .cancelled id => some s!"{id}:C"
     | _ => none
   s!"{x.cur.name} lock={showB x.holder.isSome} w={x.waiters.length} ev={joinOr evs} ret={joinOr rets} " ++
     showFields x.f
@@ -71,14 +81,15 @@ def mkCall (d : DState) (id m r q : String) : Except String Call :=
 
 def handle (d : DState) (line : String) : DState × String :=
   match (line.splitOn " ").filter (· ≠ "") with
-  | ["cfg", dir, sc, sf, sl, mode] =>
-    match Dir.ofName? dir, bool? sc, bool? sf, listeners? sl with
-    | some dir, some sc, some sf, some sl =>
-      let mk (m : Mode) : Cfg := { dir := dir, slowCancel := sc, slowFs := sf, listeners := sl, mode := m }
+  | ["cfg", dir, sc, sf, sl, mode, stub] =>
+    match Dir.ofName? dir, bool? sc, bool? sf, listeners? sl, bool? stub with
+    | some dir, some sc, some sf, some sl, some stub =>
+      let mk (m : Mode) : Cfg :=
+        { dir := dir, slowCancel := sc, slowFs := sf, listeners := sl, mode := m, stubborn := stub }
       if mode = "current" then ({ d with cfg := mk .current }, "ok")
       else if mode = "captured" then ({ d with cfg := mk .captured }, "ok")
       else (d, "err bad-arg")
-    | _, _, _, _ => (d, "err bad-arg")
+    | _, _, _, _, _ => (d, "err bad-arg")
   | ["spec"] =>
     let dn (x : Dir) : String := match x with | .upload => "upload" | .download => "download"
     let es := allDir.flatMap fun dd => allSt.flatMap fun a => (allSt.filter fun b =>
@@ -94,7 +105,7 @@ def handle (d : DState) (line : String) : DState × String :=
         let f : Fields := { failReason := fr, abortReason := ar, remotelyQueued := rq, placeInQueue := piq,
                             queueAttempts := qa, uploadAttempts := ua, startTime := st, completeTime := ct,
                             localPath := lp, fileExists := fx, filesizeSet := fs, bytes := b, tasksLive := tl }
-        ({ d with x := init s f, seen := 0, ids := [], mgrIds := [] }, "ok")
+        ({ d with x := init s f, seen := 0, ids := [], mgrIds := [], peerIds := [], fresh := [] }, "ok")
       | _, _, _, _, _, _, _ => (d, "err bad-arg")
     | _, _, _, _, _, _, _ => (d, "err bad-arg")
   | ["create", id, m, r, q] =>
@@ -103,28 +114,55 @@ def handle (d : DState) (line : String) : DState × String :=
     | .error e => (d, "err " ++ e)
   | ["call", id, m, r, q] =>
     match mkCall d id m r q with
-    | .ok c => ({ d with x := step d.cfg d.x (.call c), ids := c.id :: d.ids }, "ok")
+    | .ok c => ({ d with x := step d.cfg d.x (.call c), ids := c.id :: d.ids, fresh := c.id :: d.fresh }, "ok")
     | .error e => (d, "err " ++ e)
+  | ["pcall", id, r] =>
+    match id.toNat?, optNat? r with
+    | some id, some r =>
+      if d.ids.contains id then (d, "err duplicate-id")
+      else if d.cfg.dir != .download then (d, "err not-a-download")
+      else
+        -- manager.py:1572-1583: `await transfer.state.fail(reason=message.reason)`, looked up when the handler runs
+        let c : Call := { id := id, meth := .fail, reason := r, mgr := true }
+        ({ d with x := step d.cfg d.x (.call c), ids := id :: d.ids, peerIds := id :: d.peerIds,
+                  fresh := id :: d.fresh }, "ok")
+    | _, _ => (d, "err bad-arg")
+  | ["load", w] =>
+    match bool? w with
+    | some w => ({ d with x := load d.cfg d.x.cur d.x.f w, seen := 0 }, "ok")
+    | none => (d, "err bad-arg")
+  | ["cancel", id] =>
+    match id.toNat? with
+    | some id =>
+      if d.fresh.contains id then (d, "err not-settled")
+      else
+        let inFlight := (match d.x.holder with | some p => p.call.id == id | none => false) ||
+          d.x.waiters.any (·.id == id)
+        if !inFlight then (d, "err not-in-flight")
+        else ({ d with x := step d.cfg d.x (.cancelCaller id) }, "ok")
+    | none => (d, "err bad-arg")
+  | ["reload"] => ({ d with x := step d.cfg d.x .reload }, "ok")
   | ["mcall", id, m] =>
     match id.toNat?, Meth.ofName? m with
     | some id, some m =>
       if d.ids.contains id then (d, "err duplicate-id")
       else match Call.manager id m with
-        | some c => ({ d with x := step d.cfg d.x (.call c), ids := id :: d.ids, mgrIds := id :: d.mgrIds }, "ok")
+        | some c => ({ d with x := step d.cfg d.x (.call c), ids := id :: d.ids, mgrIds := id :: d.mgrIds,
+                                fresh := id :: d.fresh }, "ok")
         | none => (d, "err not-a-manager-method")
     | _, _ => (d, "err bad-arg")
   | ["start", id] =>
     match id.toNat? with
     | some id =>
       if (findCall id d.x.created).isNone then (d, "err no-such-call")
-      else ({ d with x := step d.cfg d.x (.start id) }, "ok")
+      else ({ d with x := step d.cfg d.x (.start id), fresh := id :: d.fresh }, "ok")
     | none => (d, "err bad-arg")
   | ["resume"] => ({ d with x := step d.cfg d.x .resume }, "ok")
   | ["spawn"] => ({ d with x := step d.cfg d.x .spawn }, "ok")
   | ["setfile"] => ({ d with x := step d.cfg d.x .setFile }, "ok")
   | ["obs"] =>
     let out := observe d
-    ({ d with x := step d.cfg d.x .tick, seen := d.x.trace.length }, out)
+    ({ d with x := step d.cfg d.x .tick, seen := d.x.trace.length, fresh := [] }, out)
   | _ => (d, "err bad-op")
 
 partial def loop (h : IO.FS.Stream) (d : DState) : IO Unit := do
